@@ -43,6 +43,7 @@ EXTENDS Sequences, Naturals, FiniteSets, TLC
 CONSTANTS
   OptToks,     \* the option alphabet (see Apply)
   MaxOpts,     \* bound on the length of the option sequence
+  MinOpts,     \* a call is made only after at least this many options (0 for the exhaustive runs; > 0 steers -simulate to long sequences)
   Ops,         \* entry points: subset of {"output", "walk", "mkdir", "verify"}
   Dev
 
@@ -134,7 +135,7 @@ AddOpt(o) ==
   /\ UNCHANGED <<op, fam, code, rule>>
 
 Call(o, f) ==
-  /\ op = "none"
+  /\ op = "none" /\ Len(opts) >= MinOpts
   /\ op' = o /\ fam' = f
   /\ code' = CodeEff(o, f, Cfg(opts))
   /\ rule' = RuleEff(o, f, Cfg(opts))
